@@ -67,6 +67,8 @@ def run(ctx):
     if payload[0] == 'after' and payload[2] == UPI:
         inner = payload[3]
         n_upi = 1
+    if n_upi != 1 and payload[0] == 'after':
+        inner = payload[3]
     if n_upi != 1:
         ctx.violation('C18.R3', KEY + ':recompute', 'the last mutation of the result is not the from-scratch cache recomputation: ' +
                       sh(payload, 200), w)
